@@ -9,6 +9,7 @@ import NanoVerif.Model.Constraint
     src/function/penalty.cpp:104-118   quadratic_penalty_function_t::do_vgrad                       -> `quadraticOp`, `quadraticPenalty`
     src/function/penalty.cpp:120-165   augmented_lagrangian_function_t (ctor asserts + do_vgrad)    -> `alVgrad`, `augLagrangian`
     src/solver/state.cpp:95-117        solver_state_t::update_constraints                           -> `evalEq`, `evalIneq`, `mkState`
+    src/solver/state.cpp:38-45         solver_state_t::update(…, multipliers): which multipliers are stored -> `storeMult`, `ALState.bmeq/bmineq`
     src/solver/state.cpp:258-263       nano::converged(bstate, cstate, epsilon)                     -> `xConverged`
     src/solver/augmented.cpp:9-18      ::make_ro1                                                   -> `makeRo1`
     src/solver/augmented.cpp:20-25     ::make_criterion                                             -> `criterion`
@@ -150,10 +151,17 @@ def makeRo1 (fx : α) (s : St α) (tiny roMin roMax : α) : α :=
   let G := s.cineq.map (fun g => cmax g 0)
   clamp (2 * absv fx / cmax (dot s.ceq s.ceq + dot G G) tiny) roMin roMax
 
-/-- the variables of the outer loop: `bstate`, `ro`, `lambda`, `miu`, `old_criterion`, the number of inner solves
-    done so far (= the loop variable `outer`) and `bstate.status()` (0 max_iters, 1 converged, 2 failed) -/
+/-- state.cpp:38-45: `if (multiplier.size() == m_m.size()) m_m = multiplier;` (an empty argument keeps the stored one,
+    unless the stored one is empty too) -/
+def storeMult (stored given : List α) : List α := if given.length = stored.length then given else stored
+
+/-- the variables of the outer loop: `bstate` (with the multipliers `m_meq`, `m_mineq` it stores), `ro`, `lambda`, `miu`,
+    `old_criterion`, the number of inner solves done so far (= the loop variable `outer`) and `bstate.status()`
+    (0 max_iters, 1 converged, 2 failed) -/
 structure ALState (α : Type) where
   best : St α
+  bmeq : List α
+  bmineq : List α
   ro : α
   lambda : List α
   miu : List α
@@ -193,16 +201,19 @@ def alStep (cs : List (C α)) (p : Params α) (s : ALState α) (a : Answer α) :
   let conv := alConverged p s a
   -- `bstate.update(cstate.x(), lambda, miu)` re-evaluates the constraints of the function at `cstate.x()`
   let best := if alImproved s a then mkState cs c.x else s.best
+  -- … and stores the multiplier estimates of this iteration (state.cpp:38-45)
+  let bmeq := if alImproved s a then storeMult s.bmeq s.lambda else s.bmeq
+  let bmineq := if alImproved s a then storeMult s.bmineq s.miu else s.bmineq
   -- `done(bstate, iter_ok, converged)`: `step_ok = iter_ok && bstate.valid(); if (converged || !step_ok) …`
   if conv || !(a.iterOk && a.bvalid) then
-    ({ s with best := best, iters := s.iters + 1, status := if conv then 1 else 2 }, true)
+    ({ s with best := best, bmeq := bmeq, bmineq := bmineq, iters := s.iters + 1, status := if conv then 1 else 2 }, true)
   else
     -- `if (outer > 0 && criterion > tau * old_criterion) ro = gamma * ro;`
     let ro' := if 0 < s.iters ∧ p.tau * s.oldCrit < crit then p.gamma * s.ro else s.ro
     let lambda' := List.zipWith (fun l h => cmin (cmax (l + s.ro * h) p.lambdaMin) p.lambdaMax) s.lambda c.ceq
     let miu' := List.zipWith (fun m g => cmin (cmax (m + s.ro * g) 0) p.miuMax) s.miu c.cineq
-    ({ best := best, ro := ro', lambda := lambda', miu := miu', oldCrit := crit, iters := s.iters + 1,
-       status := s.status }, false)
+    ({ best := best, bmeq := bmeq, bmineq := bmineq, ro := ro', lambda := lambda', miu := miu', oldCrit := crit,
+       iters := s.iters + 1, status := s.status }, false)
 
 /-- the outer loop: `fuel` = the iterations left (`max_outers - outer`), `inner k s` = the oracle's answer at outer
     iteration `k` from the loop state `s` -/
@@ -216,7 +227,7 @@ def alLoop (cs : List (C α)) (p : Params α) (inner : Nat → ALState α → An
 def alInit (cs : List (C α)) (x0 : List α) (ro1 : α) : ALState α :=
   let b := mkState cs x0
   let miu := b.cineq.map (fun _ => (0 : α))
-  { best := b, ro := ro1, lambda := b.ceq.map (fun _ => (0 : α)), miu := miu,
+  { best := b, bmeq := b.ceq.map (fun _ => (0 : α)), bmineq := miu, ro := ro1, lambda := b.ceq.map (fun _ => (0 : α)), miu := miu,
     oldCrit := criterion b miu ro1, iters := 0, status := 0 }
 
 end
